@@ -98,7 +98,7 @@ type Decision struct {
 type Hooks interface {
 	// Start logs the invocation and decides its outcome.
 	Start(id string, ctx context.Context, args []uint64) Decision
-	// End logs the end of the invocation (not reached on panic/Goexit).
+	// End logs the end of the invocation (for panic/Goexit: logged just before the function panics/exits).
 	End(id string, kind string)
 	// Arg logs the evaluation of directive argument k of program id.
 	Arg(id string, k int)
@@ -153,11 +153,13 @@ func Call(id string, ctx context.Context, args ...uint64) Result {
 	d := H.Start(id, ctx, args)
 	switch d.Kind {
 	case Panic:
+		H.End(id, d.Kind)
 		if d.RTPanic {
 			provokeRuntimeError()
 		}
 		panic(d.PanicVal)
 	case Goexit:
+		H.End(id, d.Kind)
 		runtime.Goexit()
 	case Cancel:
 		H.CancelCtx()
@@ -173,11 +175,13 @@ func Pred(id string, ctx context.Context, args ...uint64) bool {
 	d := H.Start(id, ctx, args)
 	switch d.Kind {
 	case Panic:
+		H.End(id, d.Kind)
 		if d.RTPanic {
 			provokeRuntimeError()
 		}
 		panic(d.PanicVal)
 	case Goexit:
+		H.End(id, d.Kind)
 		runtime.Goexit()
 	}
 	H.End(id, d.Kind)
